@@ -71,6 +71,12 @@ func (atxn *AllocTxn) WriteBits(nums []uint64, blk uint64, alloc bool) {
 	}
 }
 
+// Modified reports whether the transaction has written anything or holds
+// allocations, i.e., whether in-memory state may be ahead of the journal.
+func (atxn *AllocTxn) Modified() bool {
+	return atxn.Op.NDirty() > 0 || len(atxn.allocInums) > 0 || len(atxn.allocBnums) > 0
+}
+
 // Write allocated/free bits to the on-disk bit maps
 func (atxn *AllocTxn) PreCommit() {
 	util.DPrintf(1, "commitBitmaps: alloc inums %v blks %v\n", atxn.allocInums,
